@@ -390,11 +390,14 @@ def main(pid, tier, seed):
     selftest = core.binding_selftest('TrOmen.tla', accepted, corrupt)
     # ---- I-layer conformance (drift only): every next_guess() of the real generator against OmenEnum.tla ----
     conf = None
+    if not step_traces and omen.UNOBSERVABLE[0]:
+        conf = {'step_traces': 0, 'internal_state_not_observable': omen.UNOBSERVABLE[0], 'result': 'not observable'}
     if step_traces:
         sv, sst = core.validate_traces('TrOmenEnum.tla', step_traces, chunk=12, timeout=900)
         bad = [(t['tid'], sv[t['tid']]) for t in step_traces if sv[t['tid']][0] != 'ACCEPT']
         conf = {'step_traces': len(step_traces), 'next_guess_calls': sum(len(r['steps']) for t in step_traces for r in t['rounds']),
                 'compared': 'guess, parse tree, length / initial n-gram cursors after every call; the whole shared memo after every level',
+                'internal_state_not_observable': omen.UNOBSERVABLE[0],
                 'result': 'drift' if bad else 'conforms', 'drift_examples': [list(b[1]) for b in bad[:3]], 'tlc': sst}
     rc, n_viol, n_known = verdict.finish()
     nontriv = [t for t in traces if (t['kind'] == 'level' and len(t['ev']) > 1) or t['kind'] in ('agree', 'keyspace')]
